@@ -16,7 +16,7 @@ Exit codes: 0 property held on everything explored (KNOWN-FINDING lines allowed)
 with the specification that is not a listed finding, 2 for machinery problems
 (build failure, TLC error or timeout, model invariant violated, dead driver).
 """
-import json, os, re, shutil, subprocess, sys, time, random, hashlib, copy
+import json, os, re, shutil, subprocess, sys, time, random, hashlib, copy, threading
 
 VERIF = os.path.dirname(os.path.dirname(os.path.abspath(__file__)))
 REPO = os.environ.get('VERIF_REPO', '/repo')
@@ -46,6 +46,7 @@ class Ctx:
         self.notes = []
         self.cores = int(os.environ.get('VERIF_CORES', os.cpu_count() or 4))
         self.quick = (tier == 'quick')
+        self._lock = threading.Lock()
 
     # ------------------------------------------------------------------ util
     def log(self, *a):
@@ -109,12 +110,13 @@ class Ctx:
         return name
 
     def tlc(self, module, cfg=None, workers=None, timeout=900, simulate=None, depth=None, capture=None,
-            deque=False, heap='6g', extra=None, allow_fail=False, label=None):
+            deque=False, heap='6g', extra=None, allow_fail=False, label=None, specdir=None, tag=''):
         """Run TLC in the work copy of spec/.  capture: file name (in work dir) receiving the JSON
         lines printed by the specification, decoded (one JSON object per line)."""
         cfg = cfg or module
         workers = workers or self.cores
-        meta = self.path(f'meta_{module}_{cfg}_{int(time.time() * 1000) % 100000}')
+        specdir = specdir or self.specdir
+        meta = self.path(f'meta_{module}_{cfg}{tag}_{int(time.time() * 1000) % 100000}')
         jopts = ['-XX:+UseParallelGC', f'-Xmx{heap}', '-Xss512m']
         if deque:
             jopts.append('-Dtlc2.tool.queue.IStateQueue=StateDeque')
@@ -123,13 +125,13 @@ class Ctx:
         if simulate:
             cmd += ['-simulate', f'num={simulate}', '-depth', str(depth or 20), '-seed', str(self.seed)]
         cmd += (extra or []) + [module + '.tla']
-        logp = self.path(f'tlc_{module}_{cfg}.log')
+        logp = self.path(f'tlc_{module}_{cfg}{tag}.log')
         t0 = time.time()
         ncap = 0
         env = dict(os.environ)
         env.pop('JAVA_TOOL_OPTIONS', None)
         with open(logp, 'w') as lf:
-            p = subprocess.Popen(cmd, cwd=self.specdir, stdout=subprocess.PIPE, stderr=subprocess.STDOUT, text=True, env=env)
+            p = subprocess.Popen(cmd, cwd=specdir, stdout=subprocess.PIPE, stderr=subprocess.STDOUT, text=True, env=env)
             capf = open(self.path(capture), 'a') if capture else None
             for line in p.stdout:
                 if line.startswith('"{') and capf is not None:
@@ -162,9 +164,10 @@ class Ctx:
         res['log'] = logp
         ok = (p.returncode == 0) or (simulate and p.returncode in (0,) )
         res['ok'] = ok
-        self.cov['tlc_runs'].append({k: res[k] for k in ('module', 'cfg', 'mode', 'rc', 'generated', 'distinct', 'captured', 'wall_s')})
-        self.cov['states'] += res['distinct']
-        self.cov['transitions'] += res['generated']
+        with self._lock:
+            self.cov['tlc_runs'].append({k: res[k] for k in ('module', 'cfg', 'mode', 'rc', 'generated', 'distinct', 'captured', 'wall_s')})
+            self.cov['states'] += res['distinct']
+            self.cov['transitions'] += res['generated']
         self.log(f"TLC {label or module}/{cfg}: rc={p.returncode} generated={res['generated']} distinct={res['distinct']} "
                  f"exported={ncap} in {res['wall_s']}s")
         if not ok and not allow_fail:
@@ -260,14 +263,17 @@ class Ctx:
         self.log(f'{label}: binding self-test ok ({nfail}/{len(bad)} corrupted predictions rejected)')
 
     def validate_traces(self, module, cfg, trace_file, label='traces', timeout=900, deque=False, selftest=True,
-                        corrupt_event=None):
+                        corrupt_event=None, parallel=1):
         """Run a Trace_* module (see spec/TraceBase.tla) on a recorded ndjson log.  Returns the list of
         rejects: dicts {line, info, trace (events of the enclosing trace), pos (index inside it)}."""
         src = self.path(trace_file)
         events = [json.loads(x) for x in open(src) if x.strip()]
         if not events:
             raise MachineryError(f'{label}: the driver recorded no events')
-        rejects = self._run_trace(module, cfg, src, label, timeout, deque)
+        if parallel > 1 and len(events) > 200:
+            rejects = self._run_trace_parallel(module, cfg, events, label, timeout, deque, parallel)
+        else:
+            rejects = self._run_trace(module, cfg, src, label, timeout, deque)
         ntr = sum(1 for e in events if e.get('ev') == 'reset') or 1
         out = []
         for r in rejects:
@@ -318,14 +324,51 @@ class Ctx:
                 raise MachineryError(f'{label}: self-test could not corrupt any event')
         return out
 
-    def _run_trace(self, module, cfg, src, label, timeout, deque):
-        shutil.copy(src, os.path.join(self.specdir, 'trace.ndjson'))
+    def _run_trace_parallel(self, module, cfg, events, label, timeout, deque, k):
+        """Split the log at reset events into k chunks, validate them with k concurrent TLC processes (each in its
+        own copy of spec/), and map the rejected line numbers back to the whole log."""
+        from concurrent.futures import ThreadPoolExecutor
+        starts = [i for i, e in enumerate(events) if e.get('ev') == 'reset'] or [0]
+        if starts[0] != 0:
+            starts = [0] + starts
+        per = max(1, (len(starts) + k - 1) // k)
+        cuts = [starts[i] for i in range(0, len(starts), per)] + [len(events)]
+        jobs = []
+        for ci in range(len(cuts) - 1):
+            lo, hi = cuts[ci], cuts[ci + 1]
+            sd = self.path(f'spec_{label}_{ci}')
+            shutil.copytree(os.path.join(VERIF, 'spec'), sd)
+            for fn in os.listdir(self.specdir):          # derived cfg files
+                if fn.endswith('.cfg') and not os.path.exists(os.path.join(sd, fn)):
+                    shutil.copy(os.path.join(self.specdir, fn), sd)
+            src = self.path(f'chunk_{label}_{ci}.ndjson')
+            with open(src, 'w') as f:
+                for e in events[lo:hi]:
+                    f.write(json.dumps(e, separators=(',', ':')) + '\n')
+            jobs.append((ci, lo, src, sd))
+
+        def work(job):
+            ci, lo, src, sd = job
+            rej = self._run_trace(module, cfg, src, f'{label}#{ci}', timeout, deque, specdir=sd, tag=f'_{ci}')
+            return [dict(r, reject=r['reject'] + lo) for r in rej]
+
+        out = []
+        with ThreadPoolExecutor(max_workers=k) as ex:
+            for part in ex.map(work, jobs):
+                out += part
+        return out
+
+    def _run_trace(self, module, cfg, src, label, timeout, deque, specdir=None, tag=''):
+        specdir = specdir or self.specdir
+        shutil.copy(src, os.path.join(specdir, 'trace.ndjson'))
         cap = f'rejects_{label}_{int(time.time() * 1000) % 1000000}.ndjson'
-        res = self.tlc(module, cfg, workers=1, timeout=timeout, allow_fail=True, deque=deque, label=label, capture=cap)
+        res = self.tlc(module, cfg, workers=1, timeout=timeout, allow_fail=True, deque=deque, label=label, capture=cap,
+                       specdir=specdir, tag=tag, heap='3g')
         log = open(res['log']).read()
         # trace runs are not model exploration: do not count their states as model states
-        self.cov['states'] -= res['distinct']
-        self.cov['transitions'] -= res['generated']
+        with self._lock:
+            self.cov['states'] -= res['distinct']
+            self.cov['transitions'] -= res['generated']
         if res['rc'] == 124:
             raise MachineryError(f'{label}: TLC timed out validating traces')
         if res['rc'] != 0 or 'TRACE-END' not in log:
